@@ -53,7 +53,8 @@ def b_max(M0inv, Lm):
     w, Q = np.linalg.eigh(M0inv)
     Wi = (Q / np.sqrt(w)).dot(Q.T)
     lam = np.linalg.eigvalsh(Wi.dot(Lm).dot(Wi))
-    return np.inf if lam.min() >= 0 else -1.0 / lam.min()
+    # (a rank-deficient PSD loss matrix has computed eigenvalues of order -1e-17: that is zero, not a direction of descent)
+    return np.inf if lam.min() >= -1e-12 * max(np.abs(lam).max(), 1e-300) else -1.0 / lam.min()
 
 
 def judge(site, est_factory, fit_args, M0, M0inv, diff, y, balances, tr0, viol, sigs, stats, sigkey):
@@ -164,6 +165,19 @@ def run_case(spec):
         diff = P[:, 0] - P[:, 1]
         evals += judge('SDML.fit', lambda b, s: ml.SDML(prior=prv, balance_param=b, sparsity_param=s, random_state=1), (P, y),
                        M0, M0inv, diff, y, [0.1, 0.5, 0.9, 2.0, 10.0, 100.0], [pr], viol, sigs, stats, ('SDML', dsn, pr))
+        if pr in ('identity', 'array'):
+            # pair sets of unusual size: a single pair (either label), two pairs, and 1 700 pairs drawn over the same points
+            n_pts = len(ds.X)
+            big_idx = np.array([(i % n_pts, (i * 7 + 1 + i // n_pts) % n_pts) for i in range(1700)])
+            big_idx = big_idx[big_idx[:, 0] != big_idx[:, 1]][:1693]
+            big_y = np.where((np.arange(len(big_idx)) * 5) % 7 < 3, 1, -1)
+            ipos, ineg = int(np.where(y == 1)[0][0]), int(np.where(y == -1)[0][0])
+            for vlab, Pv, yv in (('one_similar_pair', P[[ipos]], y[[ipos]]), ('one_dissimilar_pair', P[[ineg]], y[[ineg]]),
+                                 ('two_pairs', P[[ipos, ineg]], y[[ipos, ineg]]), ('1693_pairs', ds.X[big_idx], big_y)):
+                M0v, M0invv = priors.prior_matrix(prv, Pv, d, seed=1)
+                dv = Pv[:, 0] - Pv[:, 1]
+                evals += judge('SDML.fit', lambda b, s: ml.SDML(prior=prv, balance_param=b, sparsity_param=s, random_state=1), (Pv, yv),
+                               M0v, M0invv, dv, yv, [0.5, 0.9], [pr, vlab], viol, sigs, stats, ('SDML', dsn, pr, vlab))
     else:
         from checks.c08_supervised import Capture
         for s in (0, 1):
